@@ -324,6 +324,18 @@ class PeriodicGrid(Grid):
         # Call the constructor of the base class
         super().__init__(points, weights)
 
+    @Grid.points.setter
+    def points(self, value):
+        """Set the points of the grid and update the fractional intervals used by ``get_localgrid``."""
+        Grid.points.fset(self, value)
+        if self._realvecs.size > 0:
+            if value.ndim == 1:
+                frac_points = value * self._recivecs
+                self._frac_intvls = np.array([[frac_points.min(), frac_points.max()]])
+            else:
+                frac_points = value @ self._recivecs.T
+                self._frac_intvls = np.array([frac_points.min(axis=0), frac_points.max(axis=0)]).T
+
     @property
     def realvecs(self):
         """np.ndarray(N,) or np.ndarray(N, M): Real-space lattice vectors."""
